@@ -163,7 +163,10 @@ def run_case(case):
             tables = {'accepted_contexts': acc.accepted_contexts, 'sop_classes_as_scp': acc.sop_classes_as_scp,
                       'dul.accepted_contexts': acc.dul.accepted_contexts}
             for tname, tab in tables.items():
-                got = {k: (str(v[1]), str(v[2])) for k, v in tab.items()}
+                try:
+                    got = {k: (str(v[1]), str(v[2])) for k, v in tab.items()}
+                except Exception:   # noqa  (a table of another shape is not the documented table)
+                    got = 'table of another shape: %r' % (dict(list(tab.items())[:2]),)
                 if got != expected_accept:
                     viol.append((sigb + 'table:' + tname, '%s=%r but the reply accepted %r (%s)' % (tname, got, expected_accept, where)))
             # dispatch through the real _loop
